@@ -316,6 +316,9 @@ LATER = {
 }
 
 
+WAVE5 = {'C01': 'Wave 5: runs in other environments (python -O, PYTHONOPTIMIZE=2, a user configuration with exact unit entries after wildcards); info files in Fortran E23.15 format; levelmax 21 and 24.', 'C03': 'Wave 5: uniformly fine meshes with tall and wide windows (dy given explicitly).', 'C04': 'Wave 5: several runs visited in one process, by absolute path and by the default relative path after chdir.', 'C05': 'Wave 5: a requested limit must be the grid edge also when the opposite limit is automatic.', 'C06': 'Wave 5: memory layout (strides, offset into the base buffer) is part of the canonical state; start state with a Vector built from the columns of one array.', 'C08': 'Wave 5: composite units grouped by dimension; stale look-alike configuration files next to the user configuration and in the working directory.', 'C09': 'Wave 5: n-d component arrays for norm in the quick tier.', 'C10': 'Wave 5: commutative functions must give the same outcome in both operand orders; a bare operand of add/subtract is a pure number.', 'C12': 'Wave 5: the same dataset loaded before with another level cap; level predicates as partial/callable/bound method.', 'C13': 'Wave 5: outputs with levelmax 21/24 and Fortran-format info files.', 'C14': 'Wave 5: a reduced case list re-run under python -O and PYTHONOPTIMIZE=2.', 'C16': 'Wave 5: in-place work on the extracted dataset must not reach the input.', 'C17': 'Wave 5: array-valued Quantity and bare ndarray right operands.', 'C20': 'Wave 5: keys ending in x or _x.'}
+
+
 def main():
     checks = []
     na = []
@@ -332,6 +335,8 @@ def main():
         _, cat, tech, text, note, ref = ent
         if pid in LATER:
             note = note + " Added after seeded waves 3-4: " + LATER[pid]
+        if pid in WAVE5:
+            note = note + " " + WAVE5[pid]
         checks.append(
             {
                 "property_id": pid,
